@@ -161,28 +161,43 @@ def level_functions(repo):
     return out
 
 
+def _guard(lines, what, produce, fallback):
+    """one fact group: on Unsupported (the code no longer has the expected shape) emit a value for which the
+    theorem about this fact cannot hold, and say why - only the properties resting on this fact are affected"""
+    try:
+        lines += produce()
+    except Unsupported as ex:
+        msg = str(ex).replace("*)", "* )")
+        lines += [f"(* {what}: NOT READABLE from the source - {msg} *)"] + fallback
+
+
 def translate(repo):
     groups = declared_groups(repo)
-    res = init_resets(repo)
-    lines = ["(* T5: facts of the source the life-cycle and compilation models rely on *)",
-             "From Coq Require Import ZArith.",
-             "(* element class -> (declares states, init_vars resets next_states - own or via super()) *)",
-             "Definition gen_init_resets : list (eclass * (bool * bool)) :=", "  ["]
     b = lambda x: "true" if x else "false"
-    lines.append(";\n".join(f"   ({ELEM_CLASSES[c][1]}, ({b(groups[c]['_states'])}, {b(res[c])}))" for c in ELEM_CLASSES))
-    lines += ["  ].", "",
-              "(* ElementWithVars.step stores the new value of every state name, unconditionally *)",
-              f"Definition gen_step_overwrites : bool := {b(step_overwrites(repo))}.", ""]
-    lv = level_functions(repo)
+    lines = ["(* T5: facts of the source the life-cycle and compilation models rely on *)",
+             "From Coq Require Import ZArith."]
+
+    def f1():
+        res = init_resets(repo)
+        return ["(* element class -> (declares states, init_vars resets next_states - own or via super()) *)",
+                "Definition gen_init_resets : list (eclass * (bool * bool)) :=", "  [",
+                ";\n".join(f"   ({ELEM_CLASSES[c][1]}, ({b(groups[c]['_states'])}, {b(res[c])}))" for c in ELEM_CLASSES),
+                "  ].", ""]
+    _guard(lines, "init_vars resets", f1, ["Definition gen_init_resets : list (eclass * (bool * bool)) := [(ELink, (true, false))].", ""])
+
+    def f2():
+        return ["(* ElementWithVars.step stores the new value of every state name, unconditionally *)",
+                f"Definition gen_step_overwrites : bool := {b(step_overwrites(repo))}.", ""]
+    _guard(lines, "ElementWithVars.step", f2, ["Definition gen_step_overwrites : bool := false.", ""])
     names = {"_gather_inputs": "gen_level_inputs", "_gather_outputs": "gen_level_outputs",
              "_add_parameters_to_inputs": "gen_level_parameters", "_add_flows_to_outputs": "gen_level_flows"}
-    lines.append("(* how each compile helper of engines/casadi.py classifies the compactness argument *)")
-    for k, v in names.items():
-        lines.append(f"Definition {v} : Z -> nat := {lv[k]}.")
-    lines.append("")
+
+    def f3():
+        lv = level_functions(repo)
+        return ["(* how each compile helper of engines/casadi.py classifies the compactness argument *)"] + \
+               [f"Definition {v} : Z -> nat := {lv[k]}." for k, v in names.items()] + [""]
+    _guard(lines, "tests on `compact`", f3, [f"Definition {v} : Z -> nat := fun _ => 99%nat." for v in names.values()] + [""])
     return lines
-
-
 
 
 # ---------------------------------------------------------------------------
@@ -299,29 +314,88 @@ def valid_facts(repo):
     return sites, verdict, raises_elsewhere == sum(1 for _, f in sites if f)
 
 
+# ---------------------------------------------------------------------------
+# F4  engines/casadi.py  Engine.to_function: the readiness scan in front of everything else
+def _same(node, src):
+    """is `node` the expression `src` (compared as syntax trees)?"""
+    return ast.dump(node) == ast.dump(ast.parse(src, mode="eval").body)
+
+
+def readiness_facts(repo):
+    tree = ast.parse(open(os.path.join(repo, "src/sym_metanet/engines/casadi.py")).read())
+    fn = _fn(class_def(tree, "Engine"), "to_function")
+    if fn is None:
+        raise Unsupported("Engine.to_function not found")
+    body = [st for st in fn.body if not (isinstance(st, ast.Expr) and isinstance(st.value, ast.Constant))]
+    scan = body[0] if body else None
+    if not isinstance(scan, ast.For):
+        raise Unsupported("Engine.to_function does not start with the readiness loop")
+    over_all = _same(scan.iter, "product(net.elements, ['_states', '_actions', '_disturbances'])") and \
+        isinstance(scan.target, ast.Tuple) and [getattr(e, "id", None) for e in scan.target.elts] == ["el", "group"]
+    ifs = [st for st in scan.body if isinstance(st, ast.If)]
+    if len(ifs) != 2 or len(scan.body) != 2 or any(st.orelse for st in ifs):
+        raise Unsupported("Engine.to_function: the readiness loop is not two plain conditionals")
+
+    def raises_runtime(st):
+        return len(st.body) == 1 and isinstance(st.body[0], ast.Raise) and isinstance(st.body[0].exc, ast.Call) \
+            and isinstance(st.body[0].exc.func, ast.Name) and st.body[0].exc.func.id == "RuntimeError"
+    init_check = _same(ifs[0].test, "any(getattr(el, group)) and (not getattr(el, f'has{group}'))") and raises_runtime(ifs[0])
+    step_check = _same(ifs[1].test, "any(el._states) and (not el.has_next_states)") and raises_runtime(ifs[1])
+    # has_states / has_actions / has_disturbances / has_next_states are `self.<slot> is not None`
+    base = ast.parse(open(os.path.join(repo, "src/sym_metanet/blocks/base.py")).read())
+    cls = class_def(base, "ElementWithVars")
+    props_ok = True
+    for prop, slot in (("has_states", "states"), ("has_next_states", "next_states"), ("has_actions", "actions"),
+                       ("has_disturbances", "disturbances")):
+        f = _fn(cls, prop)
+        rets = [st for st in (f.body if f else []) if isinstance(st, ast.Return)]
+        props_ok = props_ok and f is not None and len(rets) == 1 and _same(rets[0].value, f"self.{slot} is not None")
+    return over_all, init_check, step_check, props_ok
+
+
 _translate_f1_f3 = translate
 
 
 def translate(repo):            # noqa: F811  (extends the F1-F3 output)
     lines = _translate_f1_f3(repo)
     b = lambda x: "true" if x else "false"
-    od, phases = step_facts(repo)
-    lines += ["(* Network.step: defaults of the six positivity options *)",
-              "Definition gen_option_defaults : list (string * bool) :=",
-              "  [" + "; ".join(f'("{o}", {b(od[o])})' for o in OPTIONS) + "].",
-              "(* Network.step: (loop over, method called, options handed on under their own name, engine handed on,",
-              "   extra parameters handed on, initial conditions looked up by the element object) per phase, in order *)",
-              "Definition gen_step_phases : list (string * string * list string * bool * bool * option bool) :=", "  ["]
-    lines.append(";\n".join(
-        f'   ("{p["over"]}", "{p["method"]}", [' + "; ".join(f'"{o}"' for o in p["options"]) + f'], {b(p["engine"])}, {b(p["star"])}, '
-        + ("None" if p["by_element"] is None else f"Some {b(p['by_element'])}") + ")" for p in phases))
-    lines += ["  ].", ""]
-    sites, verdict, only = valid_facts(repo)
-    lines += ["(* Network.is_valid: every msgs.append(...) and whether `if raises: raise ...` is the next statement *)",
-              "Definition gen_valid_sites : list (string * bool) :=", "  ["]
-    lines.append(";\n".join(f'   ("{t}", {b(f)})' for t, f in sites))
-    lines += ["  ].", f"Definition gen_valid_verdict_is_not_msgs : bool := {b(verdict)}.",
-              f"Definition gen_valid_raises_only_there : bool := {b(only)}.", ""]
+
+    def f5():
+        od, phases = step_facts(repo)
+        out = ["(* Network.step: defaults of the six positivity options *)",
+               "Definition gen_option_defaults : list (string * bool) :=",
+               "  [" + "; ".join(f'("{o}", {b(od[o])})' for o in OPTIONS) + "].",
+               "(* Network.step: (loop over, method called, options handed on under their own name, engine handed on,",
+               "   extra parameters handed on, initial conditions looked up by the element object) per phase, in order *)",
+               "Definition gen_step_phases : list (string * string * list string * bool * bool * option bool) :=", "  ["]
+        out.append(";\n".join(
+            f'   ("{p["over"]}", "{p["method"]}", [' + "; ".join(f'"{o}"' for o in p["options"]) + f'], {b(p["engine"])}, {b(p["star"])}, '
+            + ("None" if p["by_element"] is None else f"Some {b(p['by_element'])}") + ")" for p in phases))
+        return out + ["  ].", ""]
+    _guard(lines, "Network.step", f5,
+           ["Definition gen_option_defaults : list (string * bool) := [].",
+            "Definition gen_step_phases : list (string * string * list string * bool * bool * option bool) := [].", ""])
+
+    def f4():
+        ra, rb, rc, rd = readiness_facts(repo)
+        return ["(* Engine.to_function starts with: for every element x {_states, _actions, _disturbances}: a declared but",
+                "   uninitialised group raises RuntimeError; declared states without next states raise RuntimeError; and the",
+                "   has_* properties are `slot is not None` *)",
+                f"Definition gen_ready_scan : bool * bool * bool * bool := ({b(ra)}, {b(rb)}, {b(rc)}, {b(rd)}).", ""]
+    _guard(lines, "readiness scan of to_function", f4,
+           ["Definition gen_ready_scan : bool * bool * bool * bool := (false, false, false, false).", ""])
+
+    def f6():
+        sites, verdict, only = valid_facts(repo)
+        out = ["(* Network.is_valid: every msgs.append(...) and whether `if raises: raise ...` is the next statement *)",
+               "Definition gen_valid_sites : list (string * bool) :=", "  ["]
+        out.append(";\n".join(f'   ("{t}", {b(f)})' for t, f in sites))
+        return out + ["  ].", f"Definition gen_valid_verdict_is_not_msgs : bool := {b(verdict)}.",
+                      f"Definition gen_valid_raises_only_there : bool := {b(only)}.", ""]
+    _guard(lines, "Network.is_valid", f6,
+           ["Definition gen_valid_sites : list (string * bool) := [].",
+            "Definition gen_valid_verdict_is_not_msgs : bool := false.",
+            "Definition gen_valid_raises_only_there : bool := false.", ""])
     return lines
 
 
